@@ -259,10 +259,10 @@ def load_report(path):
         return json.load(f)
 
 
-def trace_validate(module, trace_path, wd, name, timeout=1800, heap="4g", extra_env=None):
+def trace_validate(module, trace_path, wd, name, timeout=1800, heap="4g", extra_env=None, cfg_extra=""):
     """M3: validate an NDJSON trace recorded from the implementation against spec/<module>.tla.
     The trace spec prints one JSON line per disagreement and a final {"ev":"DONE","n":..} line."""
-    cfg = "INIT Init\nNEXT Next\nPOSTCONDITION Done\nCHECK_DEADLOCK FALSE\n"
+    cfg = "INIT Init\nNEXT Next\nPOSTCONDITION Done\nCHECK_DEADLOCK FALSE\n" + cfg_extra
     env = {"TRACE": trace_path}
     if extra_env:
         env.update(extra_env)
